@@ -320,6 +320,53 @@ def pen_elem(kind, u, **p):
     return v
 
 
+def pen_deriv(kind, u, **p):
+    """derivative of the scalar penalty t -> pen(t) at t = |u| > 0 (for the weakly convex / non-convex kinds)."""
+    a = p.get("alpha", 1.0)
+    wt = p.get("weight", 1.0)
+    t = abs(float(u))
+    if kind in ("l1", "wl1"):
+        return a * wt
+    if kind in ("mcp", "wmcp", "bmcp"):
+        g = p["gamma"]
+        return wt * (a - t / g) if t < a * g else 0.0
+    if kind in ("scad", "bscad"):
+        g = p["gamma"]
+        return a if t <= a else ((a * g - t) / (g - 1) if t <= a * g else 0.0)
+    if kind in ("l05", "l2_05"):
+        return a / (2 * math.sqrt(t))
+    if kind == "l23":
+        return a * 2 / (3 * t ** (1.0 / 3.0))
+    if kind == "logsum":
+        return a / (p["eps"] + t)
+    if kind == "l21":
+        return a
+    raise KeyError(kind)
+
+
+def polish_stationary(kind, u, x, s, width, **p):
+    """Refine a non-zero brute-force minimiser u of 0.5 (u - x)^2 + s pen(|u|) to machine precision by bisection
+    on the stationarity function h(t) = t - |x| + s pen'(t) around |u| (same smooth branch)."""
+    t0, ax = abs(u), abs(x)
+    if t0 == 0 or t0 == ax:
+        return u
+    h = lambda t: t - ax + s * pen_deriv(kind, t, **p)  # noqa
+    lo, hi = max(t0 - width, t0 * 0.5, 1e-300), min(t0 + width, ax)
+    try:
+        hl, hh = h(lo), h(hi)
+    except Exception:
+        return u
+    if not (hl < 0 < hh):
+        return u
+    for _ in range(200):
+        mid = 0.5 * (lo + hi)
+        if h(mid) < 0:
+            lo = mid
+        else:
+            hi = mid
+    return math.copysign(0.5 * (lo + hi), x)
+
+
 def pen_radial(kind, r, **p):
     """Block penalties as functions of the row/group norm r >= 0."""
     a = p.get("alpha", 1.0)
@@ -558,7 +605,13 @@ class RefPenalty:
         if k == "l2":
             u = x / (1 + s * a)
             return u, float(self.prox_obj_1d(u, x, s, j))
-        return brute_prox_1d(lambda u: self.prox_obj_1d(u, x, s, j), x, lo_zero=pos)
+        u, v = brute_prox_1d(lambda u: self.prox_obj_1d(u, x, s, j), x, lo_zero=pos)
+        if u != 0 and k in ("mcp", "wmcp", "scad", "l05", "l23", "logsum"):
+            u2 = polish_stationary(k, u, x, s, 1e-6 * (1 + abs(x)), **p)
+            v2 = float(self.prox_obj_1d(u2, x, s, j))
+            if v2 <= v + 1e-15 * (1 + abs(v)):
+                u, v = u2, min(v, v2)
+        return u, v
 
     def prox_block(self, x, s, unit=None):
         """(argmin, min value) for a group / row vector x."""
@@ -589,6 +642,11 @@ class RefPenalty:
                 val = float(f(r))
             else:
                 r, val = brute_prox_1d(f, nx, lo_zero=True)
+                if r != 0:
+                    r2 = polish_stationary(k, r, nx, s, 1e-6 * (1 + nx), **p)
+                    v2 = float(f(r2))
+                    if v2 <= val + 1e-15 * (1 + abs(val)):
+                        r, val = abs(r2), min(val, v2)
             u = np.zeros_like(x) if nx == 0 else (r / nx) * x
             return u, val
         raise KeyError(k)
